@@ -497,6 +497,10 @@ func runC18(c *Ctx, r *Report) {
 		}
 		return true
 	})
+	r.Doc("R-C18.13", "links are handed on in the form they were written: the codec never rebuilds a CID in another version")
+	noCidReencoding(c, r, "R-C18.13")
+	r.Doc("R-C18.14", "DecryptLinks replaces the clear lists of a decoded block only by links it has just opened")
+	linksOverwrittenOnlyWhenOpened(c, r, "R-C18.14")
 	r.Doc("R-C18.12", "a fixed-size key or nonce buffer (an array, or a slice made with a constant length) is filled completely: the loop that copies into it covers every index (a byte left at zero makes keys that differ only there interchangeable and takes entropy out of the nonce)")
 	{
 		nfill := 0
